@@ -25,6 +25,8 @@ def load_known():
 
 class Ctx:
     def __init__(self, pid, tier, db, tree_hash, dbrel=None, only_key=None):
+        from . import rules as _rules
+        _rules._DB = db
         self.pid = pid
         self.tier = tier
         self.db = db
